@@ -255,8 +255,7 @@ def run(ctx: Context) -> None:
             t = g.ifs[0]
             it = flow.resolve(g.iter)
             ok = (isinstance(t, ast.Compare) and isinstance(t.ops[0], ast.NotIn)
-                  and isinstance(it, ast.Call) and isinstance(it.func, ast.Attribute) and it.func.attr == 'keys'
-                  and norm_text(it.func.value) == f"{ev.params[0]}.data_vars"
+                  and norm_text(it) == f"{ev.params[0]}.data_vars"
                   and flow.reaches(t.comparators[0], lambda n: isinstance(n, ast.Name) and n.id == ev.params[1]
                                    and any(d.kind == 'param' for d in flow.defs_of(n))))
         ctx.check('R05.1', ok and flow.canon(drops[0].func.value) == ('param', ev.params[0]),
